@@ -223,6 +223,7 @@ func c14Client(e *c14Env, b C14Batch, i int, spec C14Client, tgtMux, dnsMux *tag
 		}
 		return last
 	}
+	natInode := "" // inode of the association's outbound socket, learnt when a target first sees its source port
 	// alive: a datagram sent by `from` to the association's outbound address reaches the client
 	alive := func(from *kit.UDPPeer, natSrc *net.UDPAddr, what string, wait time.Duration) bool {
 		body := "probe-" + what + tag("p", 0)
@@ -254,7 +255,6 @@ func c14Client(e *c14Env, b C14Batch, i int, spec C14Client, tgtMux, dnsMux *tag
 	tgtAddr, dnsAddr := e.tgt.Addr, e.dns.Addr
 	var lastPlain, lastDNS time.Time
 	var natSrc *net.UDPAddr
-	natInode := ""
 	sendPlain := func(k int) *kit.Finding {
 		t0 := time.Now()
 		e.send(cl, tgtAddr, tag("plain", k), seed+int64(k))
